@@ -1668,6 +1668,7 @@ ly_time_str2time(const char *value, time_t *time, char **fractions_s)
     const char *frac;
     char *ptr;
     int64_t shift, shift_m;
+    ly_bool shift_neg;
     time_t t;
 
     LY_CHECK_ARG_RET(NULL, value, strlen(value) > 18, time, LY_EINVAL);
@@ -1733,6 +1734,9 @@ ly_time_str2time(const char *value, time_t *time, char **fractions_s)
             LOGERR(NULL, LY_EINVAL, "Invalid date-and-time timezone hour \"%s\".", value);
             return LY_EINVAL;
         }
+
+        /* the offset is negative also if its hours are -00 */
+        shift_neg = ((shift < 0) || (value[0] == '-')) ? 1 : 0;
         shift = shift * 60 * 60; /* convert from hours to seconds */
 
         value = ptr + 1;
@@ -1744,7 +1748,7 @@ ly_time_str2time(const char *value, time_t *time, char **fractions_s)
         shift_m *= 60; /* convert from minutes to seconds */
 
         /* correct sign */
-        if (shift < 0) {
+        if (shift_neg) {
             shift_m *= -1;
         }
 
